@@ -118,7 +118,7 @@ impl Hist for C16 {
 }
 
 fn configs(tier: Tier) -> Vec<(C16, usize)> {
-    let d = if tier == Tier::Quick { 5 } else { 7 };
+    let d = if tier == Tier::Quick { 6 } else { 7 };
     let mut v = vec![(C16 { tpl0: 2, initial_tab: None, order: 0 }, d), (C16 { tpl0: 0, initial_tab: Some(4), order: 0 }, d - 1), (C16 { tpl0: 1, initial_tab: Some(0), order: 0 }, d - 1)];
     // the other builder orders, every template, shallower
     for order in 1..=3u8 {
